@@ -141,7 +141,9 @@ def repEntry (r : PyTy → PyVal → Json → Bool) (k t : PyTy) (p : PyVal × P
    | _ => r k p.1 (.str kv.1)) &&
   r t p.2 kv.2
 
-/-- a raw primitive equal to a member, at a union position that has an enum alternative -/
+/-- a raw primitive equal to a member, at a union position that has an enum alternative (only at
+    unions other than `Optional[X]`: those are unstructured by the runtime class of the value, so a
+    raw primitive passes; an `Optional[Enum]` attribute would call `.value` on it) -/
 def rawEnum (r : PyTy → PyVal → Json → Bool) (ts : List PyTy) (v : PyVal) (j : Json) : Bool :=
   ts.any (fun t => match t with
     | .enum e => (match v, j with
@@ -190,7 +192,7 @@ def rep (E : Env) (bad : List PyTy) : Nat → PyTy → PyVal → Json → Bool
        (match v, j with
         | .tuple vs, .arr xs => all3 (rep E bad n) ts vs xs
         | _, _ => false)
-     | .union ts => ts.any (fun t => rep E bad n t v j) || rawEnum (rep E bad n) ts v j
+     | .union ts => ts.any (fun t => rep E bad n t v j) || ((PyTy.optionalOf ts).isNone && rawEnum (rep E bad n) ts v j)
      | .unknown _ => false)
 
 /-- `j` is valid for `T`: it has a typed reading. -/
